@@ -1667,6 +1667,46 @@ theorem request_errors_eq_spec_partial (d : Doc) (o : CallOpts) (fr : FullReq)
   · rintro ⟨p, ⟨h1, h2⟩, he⟩
     refine ⟨p, (mem_visited d o p).2 ⟨h1, by simpa using h2⟩, by rw [key p h1]; exact he⟩
 
+/-- … as lists: the errors the code collects (MultiError) are a permutation of the specification's failures — same
+parameters, same kinds, same multiplicities (a parameter validated twice would break this) -/
+theorem request_errors_perm_spec_partial (d : Doc) (o : CallOpts) (fr : FullReq)
+    (hs : ∀ p ∈ effective d, ParamInScope p) :
+    (requestErrors validateParameter d o fr).Perm (specFailures d o fr) := by
+  have key : ∀ p ∈ effective d, errOf validateParameter fr p = errOf validateSpec fr p := by
+    intro p hp
+    obtain ⟨l, h1, h2, h3, h4, h5, h6⟩ := hs p hp
+    unfold errOf
+    rw [validate_eq_spec_partial p (reqFor p fr) l h1 h2 h3 h4 h5 h6]
+  have hv : (visited d o).Perm ((effective d).filter (fun p => !excluded o p)) := by
+    unfold visited effective
+    rw [List.filter_append, List.filter_filter]
+    refine List.Perm.trans List.perm_append_comm ?_
+    apply List.Perm.of_eq
+    congr 1
+  unfold requestErrors specFailures
+  refine List.Perm.trans (List.Perm.filterMap _ hv) ?_
+  apply List.Perm.of_eq
+  apply filterMap_congr'
+  intro p hp
+  exact key p (List.mem_filter.1 hp).1
+
+/-- loop order: with MultiError the errors of path-item parameters come before those of operation parameters -/
+theorem request_errors_order (val : Param → Req → Verdict) (d : Doc) (o : CallOpts) (fr : FullReq) :
+    requestErrors val d o fr =
+      (d.pathItem.filter (pathItemKept o d.operation)).filterMap (errOf val fr) ++
+      (d.operation.filter (operationKept o)).filterMap (errOf val fr) := by
+  simp [requestErrors, visited, List.filterMap_append]
+
+/-- identity of a parameter is location AND name: a path-item parameter is not replaced by an operation parameter of
+the same name in another location (`id` in the path, `id` in the query) -/
+theorem override_needs_same_location :
+    let pid : Param := ⟨⟨.path, .simple, false⟩, "id".toList, true, false, .leaf (.prim { t := .integer })⟩
+    let qid : Param := ⟨⟨.query, .form, true⟩, "id".toList, false, false, .leaf (.prim { t := .string })⟩
+    visited ⟨[pid], [qid]⟩ ⟨false, false⟩ = [pid, qid] ∧ effective ⟨[pid], [qid]⟩ = [qid, pid] ∧
+    validateRequestParams ⟨[pid], [qid]⟩ ⟨false, false⟩ { pathParams := [("id".toList, ['x'])], query := [("id".toList, [['x']])] }
+      = .first (.path, "id".toList, .parse) := by
+  decide
+
 /-- … and therefore the code accepts exactly the requests the specification accepts -/
 theorem request_ok_iff_spec_partial (d : Doc) (o : CallOpts) (fr : FullReq)
     (hs : ∀ p ∈ effective d, ParamInScope p) :
